@@ -1,5 +1,286 @@
-//! (stub)
+//! C07 — dual hashes are a lossless, canonical encoding of raw plus normalized.
+
 use crate::common::*;
-use serde_json::Value;
-pub fn replay(_c: &Value) -> Result<(), String> { Err("not implemented".into()) }
-pub fn run(_ctx: &Ctx) -> Report { Report::new("model_checking") }
+use crate::corpus;
+use crate::hashobj::*;
+use refmodel::text as rt;
+use serde_json::{json, Value};
+use ssdeep::{DualFuzzyHash, FuzzyHash, LongDualFuzzyHash, LongFuzzyHash, LongRawFuzzyHash, RawFuzzyHash};
+use std::cmp::Ordering;
+
+/// All construction routes for one raw hash, plus decompression and the
+/// normalised part.  `dirty` is a raw content previously held by re-used
+/// destination objects.
+fn single<D: Dual>(log: u8, bh1: &[u8], bh2: &[u8], dirty: &(u8, Vec<u8>, Vec<u8>)) -> Result<D, String>
+where
+    D::Raw: Plain,
+    D::Norm: Plain,
+{
+    let raw: D::Raw = guarded(|| D::Raw::near_raw(log, bh1, bh2))?;
+    let (n1, n2) = (refmodel::normalize(bh1), refmodel::normalize(bh2));
+    let text = rt::format(log, bh1, bh2);
+    let dirty_raw: D::Raw = D::Raw::near_raw(dirty.0, &dirty.1, &dirty.2);
+    // construction routes
+    let a = guarded(|| D::from_raw(&raw))?;
+    let mut b = guarded(|| D::from_raw(&dirty_raw))?; // dirty object re-initialised
+    guarded(|| b.init_from_raw(&raw))?;
+    let c = guarded(|| D::near_raw(log, bh1, bh2))?;
+    let c2 = guarded(|| D::from_internals(3u32 << log, bh1, bh2))?;
+    let d = guarded(|| D::parse_str(&text))?.map_err(|e| format!("parse({}): {:?}", text, e))?;
+    let e = guarded(|| D::parse_bytes(text.as_bytes()))?.map_err(|e| format!("from_bytes({}): {:?}", text, e))?;
+    let routes: [(&str, &D); 6] = [
+        ("from_raw_form", &a),
+        ("init_from_raw_form into a dirty object", &b),
+        ("new_from_internals_near_raw", &c),
+        ("new_from_internals", &c2),
+        ("str::parse", &d),
+        ("from_bytes", &e),
+    ];
+    let ha = hash_stream(&a);
+    let da = guarded(|| format!("{:?}", a))?;
+    for (name, x) in routes.iter() {
+        if !guarded(|| x.valid())? {
+            return Err(format!("{}: dual hash fails the validity check", name));
+        }
+        if **x != a || a != **x {
+            return Err(format!("{}: not == the dual built by from_raw_form", name));
+        }
+        if hash_stream(*x) != ha {
+            return Err(format!("{}: Hash output differs from from_raw_form's", name));
+        }
+        if x.cmp(&&a) != Ordering::Equal || a.cmp(*x) != Ordering::Equal {
+            return Err(format!("{}: cmp() is not Equal against from_raw_form's", name));
+        }
+        if guarded(|| format!("{:?}", x))? != da {
+            return Err(format!("{}: Debug rendering differs", name));
+        }
+        // decompression
+        let back = guarded(|| x.to_raw())?;
+        if !back.valid() || !back.ref_valid() || back != raw || !back.full_eq(&raw) {
+            return Err(format!("{}: to_raw_form() gives {} expected {}", name, back, raw));
+        }
+        let mut dst = dirty_raw;
+        guarded(|| x.into_mut_raw(&mut dst))?;
+        if !dst.valid() || dst != raw || !dst.full_eq(&raw) {
+            return Err(format!("{}: into_mut_raw_form(dirty destination) gives {:?} expected {}", name, dst, raw));
+        }
+        if guarded(|| x.to_raw_string())? != text {
+            return Err(format!("{}: to_raw_form_string() != {}", name, text));
+        }
+        // normalised part
+        let n = x.as_norm();
+        if !n.valid() || !n.ref_valid() || n.log() != log || n.bh1() != &n1[..] || n.bh2() != &n2[..] {
+            return Err(format!("{}: as_normalized() gives {} expected {}", name, n, rt::format(log, &n1, &n2)));
+        }
+        let tn = x.to_norm();
+        if !tn.full_eq(n) || guarded(|| x.to_norm_string())? != rt::format(log, &n1, &n2) {
+            return Err(format!("{}: to_normalized()/to_normalized_string() disagree", name));
+        }
+        if x.log() != log {
+            return Err(format!("{}: log block size", name));
+        }
+    }
+    // clearing the reverse-normalization data yields the dual of the normalised hash
+    let mut cleared = a;
+    guarded(|| cleared.normalize_in_place())?;
+    let norm_as_raw: D::Raw = D::Raw::near_raw(log, &n1, &n2);
+    let dual_of_norm = guarded(|| D::from_raw(&norm_as_raw))?;
+    let norm_obj: D::Norm = D::Norm::near_raw(log, &n1, &n2);
+    let dual_from_norm = guarded(|| D::from_norm(&norm_obj))?;
+    if !cleared.valid() || cleared != dual_of_norm || cleared != dual_from_norm || hash_stream(&cleared) != hash_stream(&dual_of_norm) {
+        return Err("normalize_in_place() is not the dual of the normalized hash".into());
+    }
+    if !cleared.is_normalized() || cleared.to_raw() != norm_as_raw {
+        return Err("normalize_in_place(): result not normalized / wrong raw form".into());
+    }
+    Ok(a)
+}
+
+fn single_ty(long: bool, log: u8, a: &[u8], b: &[u8], dirty: &(u8, Vec<u8>, Vec<u8>)) -> Result<(), String> {
+    if long {
+        single::<LongDualFuzzyHash>(log, a, b, dirty).map(|_| ())
+    } else {
+        single::<DualFuzzyHash>(log, a, b, dirty).map(|_| ())
+    }
+}
+
+/// a == b  <=>  raw(a) == raw(b), with Hash and Ord consistent, for a pair.
+fn pair<D: Dual>(x: &(u8, Vec<u8>, Vec<u8>), y: &(u8, Vec<u8>, Vec<u8>)) -> Result<bool, String> {
+    let rx: D::Raw = D::Raw::near_raw(x.0, &x.1, &x.2);
+    let ry: D::Raw = D::Raw::near_raw(y.0, &y.1, &y.2);
+    let dx = guarded(|| D::from_raw(&rx))?;
+    let dy = guarded(|| D::parse_str(&rt::format(y.0, &y.1, &y.2)))?.map_err(|e| format!("{:?}", e))?;
+    let raw_eq = x == y;
+    if (dx == dy) != raw_eq || (dy == dx) != raw_eq {
+        return Err(format!("== is {} but raw hashes are {}", dx == dy, if raw_eq { "equal" } else { "different" }));
+    }
+    if (dx.cmp(&dy) == Ordering::Equal) != raw_eq || dx.cmp(&dy) != dy.cmp(&dx).reverse() {
+        return Err("cmp() inconsistent with raw equality / not antisymmetric".into());
+    }
+    if raw_eq && hash_stream(&dx) != hash_stream(&dy) {
+        return Err("equal dual hashes with different Hash output".into());
+    }
+    let _ = rx != ry;
+    Ok(raw_eq)
+}
+
+fn pair_ty(long: bool, x: &(u8, Vec<u8>, Vec<u8>), y: &(u8, Vec<u8>, Vec<u8>)) -> Result<bool, String> {
+    if long {
+        pair::<LongDualFuzzyHash>(x, y)
+    } else {
+        pair::<DualFuzzyHash>(x, y)
+    }
+}
+
+fn triple(v: &Value) -> Option<(u8, Vec<u8>, Vec<u8>)> {
+    Some((v["log"].as_u64()? as u8, unhex(v["bh1"].as_str()?), unhex(v["bh2"].as_str()?)))
+}
+fn tj(x: &(u8, Vec<u8>, Vec<u8>)) -> Value {
+    json!({"log": x.0, "bh1": hex(&x.1), "bh2": hex(&x.2), "text": rt::format(x.0, &x.1, &x.2)})
+}
+
+pub fn replay(c: &Value) -> Result<(), String> {
+    let long = c["long"].as_bool().ok_or("long")?;
+    match c["kind"].as_str() {
+        Some("single") => {
+            let x = triple(&c["raw"]).ok_or("raw")?;
+            let d = triple(&c["dirty"]).ok_or("dirty")?;
+            single_ty(long, x.0, &x.1, &x.2, &d)
+        }
+        Some("pair") => pair_ty(long, &triple(&c["a"]).ok_or("a")?, &triple(&c["b"]).ok_or("b")?).map(|_| ()),
+        _ => Err("bad case".into()),
+    }
+}
+
+/// The pair corpus: groups sharing a normalised part with different raw runs
+/// in block hash 1 only, block hash 2 only, both; plus unrelated hashes.
+fn pair_corpus(cap2: usize) -> Vec<(u8, Vec<u8>, Vec<u8>)> {
+    let mut v = vec![];
+    let runs = [3usize, 4, 5, 7, 8, 9, 12];
+    for &log in &[0u8, 5] {
+        for &r1 in &runs {
+            for &r2 in &runs {
+                let mut a = vec![9u8, 10];
+                a.extend(std::iter::repeat(0u8).take(r1));
+                a.extend([11u8, 12]);
+                let mut b = vec![20u8];
+                b.extend(std::iter::repeat(63u8).take(r2));
+                v.push((log, a.clone(), b.clone()));
+                // two runs in block hash 1
+                let mut a2 = a.clone();
+                a2.extend(std::iter::repeat(5u8).take(r2));
+                v.push((log, a2, b.clone()));
+            }
+        }
+        // equal block hash 1, block hash 2 differs only in a run length near the capacity
+        for l in (cap2 - 6)..=cap2 {
+            v.push((log, vec![1, 2, 3], vec![7u8; l]));
+            let mut t = corpus::ramp(cap2 - l, 3);
+            t.extend(vec![7u8; l]);
+            v.push((log, vec![1, 2, 3], t));
+        }
+        for l in 58..=64usize {
+            v.push((log, vec![0u8; l], vec![]));
+        }
+    }
+    v.sort();
+    v.dedup();
+    v
+}
+
+pub fn run(ctx: &Ctx) -> Report {
+    let mut rep = Report::new("model_checking");
+    let thorough = ctx.tier == Tier::Thorough;
+    for long in [false, true] {
+        let cap2 = if long { 64 } else { 32 };
+        let corp = corpus::hash_corpus(cap2, thorough);
+        // dirty destinations: the longest-run hash, and an RLE-heavy one
+        let dirt: Vec<(u8, Vec<u8>, Vec<u8>)> = vec![
+            (30, vec![63; 64], vec![63; cap2]),
+            (7, {
+                let mut v = vec![];
+                for k in 0..8u8 {
+                    v.extend(vec![k + 1; 8]);
+                }
+                v
+            }, {
+                let mut v = vec![];
+                for k in 0..(cap2 / 8) as u8 {
+                    v.extend(vec![k + 40; 8]);
+                }
+                v
+            }),
+        ];
+        let shards = 128;
+        let per = (corp.len() + shards - 1) / shards;
+        let acc = par_shards(shards, |s, acc| {
+            for i in (s * per)..((s + 1) * per).min(corp.len()) {
+                let (log, a, b) = &corp[i];
+                for dz in &dirt {
+                    acc.evaluations += 1;
+                    if let Err(e) = single_ty(long, *log, a, b, dz) {
+                        acc.violation(
+                            format!("{} raw={}", if long { "LongDualFuzzyHash" } else { "DualFuzzyHash" }, rt::format(*log, a, b)),
+                            e,
+                            json!({"kind":"single","long":long,"raw":tj(&corp[i]),"dirty":tj(dz)}),
+                        );
+                        break;
+                    }
+                }
+                acc.nontrivial += 1;
+                let rle1 = refmodel_rle_symbols(a);
+                acc.max("max_rle_symbols_in_block_hash_1", rle1 as u64);
+                acc.bump(&format!("rle_symbols_bh1={:02}", rle1));
+                if i == corp.len() / 3 {
+                    acc.sample(json!({"kind":"single","long":long,"raw":tj(&corp[i])}));
+                }
+            }
+        });
+        acc.into_report(&mut rep, if long { "routes_LongDualFuzzyHash" } else { "routes_DualFuzzyHash" });
+        // all pairs
+        let pc = pair_corpus(cap2);
+        let n = pc.len();
+        let acc = par_shards(n, |i, acc| {
+            for j in 0..n {
+                acc.evaluations += 1;
+                acc.nontrivial += 1;
+                match pair_ty(long, &pc[i], &pc[j]) {
+                    Ok(eq) => acc.bump(if eq { "equal" } else if refmodel::normalize(&pc[i].1) == refmodel::normalize(&pc[j].1) && refmodel::normalize(&pc[i].2) == refmodel::normalize(&pc[j].2) && pc[i].0 == pc[j].0 { "different-raw-same-normalized" } else { "different" }),
+                    Err(e) => acc.violation(
+                        format!("{} pair {} | {}", if long { "LongDualFuzzyHash" } else { "DualFuzzyHash" }, rt::format(pc[i].0, &pc[i].1, &pc[i].2), rt::format(pc[j].0, &pc[j].1, &pc[j].2)),
+                        e,
+                        json!({"kind":"pair","long":long,"a":tj(&pc[i]),"b":tj(&pc[j])}),
+                    ),
+                }
+            }
+            if i == 1 {
+                acc.sample(json!({"kind":"pair","long":long,"a":tj(&pc[i]),"b":tj(&pc[0])}));
+            }
+        });
+        acc.into_report(&mut rep, if long { "all_pairs_LongDualFuzzyHash" } else { "all_pairs_DualFuzzyHash" });
+    }
+    rep.set("exhaustive", true);
+    rep.set(
+        "rule",
+        "every raw hash of HASH (both capacities; every run length at every position i.e. 0..16 RLE symbols, several runs, runs ending at the capacity) is turned into a dual hash through six routes (from_raw_form, init_from_raw_form into each of two dirty objects, new_from_internals_near_raw, new_from_internals, str::parse, from_bytes); all must be valid, ==, hash and order as equal, render identically, decompress (to_raw_form, into_mut_raw_form into a dirty destination, text) to exactly the raw hash and expose its reference normalization; normalize_in_place gives the dual of the normalized hash.  All pairs of a corpus of groups sharing a normalized part: a == b <=> raw equal.  Cases distinct by construction.",
+    );
+    rep
+}
+
+/// number of RLE symbols a raw block hash needs (vacuity counter only)
+fn refmodel_rle_symbols(v: &[u8]) -> usize {
+    let mut n = 0;
+    let mut i = 0;
+    while i < v.len() {
+        let mut j = i;
+        while j < v.len() && v[j] == v[i] {
+            j += 1;
+        }
+        let run = j - i;
+        if run > 3 {
+            n += (run - 3 + 3) / 4;
+        }
+        i = j;
+    }
+    n
+}
